@@ -469,4 +469,346 @@ theorem fin_rel (cT cB : TExpr) (fT fB : Bool)
       exact ⟨⟨by rw [a1, a2]; exact hA, by rw [n1, n2], by rw [hwrapT.1, hwrapB.1]; exact hNone,
         by rw [hwrapT.2.1, hwrapB.2]⟩, hwrapT.2.2⟩
 
+/-! ### one node -/
+
+/-- the two texts before the container and the optional wrapper are put around them, with the flags -/
+structure BaseRel (a : Attrs) (bT bB : TExpr) (fT fB : Bool) : Prop where
+  hA : dd (alts bT) = dd (alts bB)
+  hF : (hasNone bT || fT) = (hasNone bB || fB)
+  hNone : isNoneE bT = isNoneE bB
+  hAny : isAnyE bT = isAnyE bB
+  hC : isCont a = true → hasNone bT = hasNone bB ∧ fT = fB
+  wT : wfU bT = true
+  sT : spineOK bT = true
+  wB : wfB bB = true
+
+def KeyRel : Option TExpr → Option TExpr → Prop
+  | none, none => True
+  | some x, some y => RelW x y
+  | _, _ => False
+
+theorem names_withOp (o : Opts) : listName (withOp o) = listName o ∧ setName (withOp o) = setName o ∧
+    dictName (withOp o) = dictName o := ⟨rfl, rfl, rfl⟩
+
+theorem post_rel (o : Opts) (a : Attrs) (keyT keyB : Option TExpr) (bT bB : TExpr) (fT fB rn : Bool)
+    (hb : BaseRel a bT bB fT fB) (hk : KeyRel keyT keyB) :
+    RelW (finishE false (containerE o a keyT bT) (fT || rn)).1 (finishE true (containerE (withOp o) a keyB bB) (fB || rn)).1 := by
+  have hneT := print_ne_nil_of_wfU bT hb.wT
+  have hneB := print_ne_nil_of_wfB bB hb.wB
+  have hkeyT : ∀ k, keyT = some k → wfU k = true := by
+    intro k hk'; subst hk'
+    cases keyB with
+    | none => exact absurd hk (by simp [KeyRel])
+    | some y => exact hk.2.1
+  have hkeyB : ∀ k, keyB = some k → wfB k = true := by
+    intro k hk'; subst hk'
+    cases keyT with
+    | none => exact absurd hk (by simp [KeyRel])
+    | some y => exact hk.2.2.2
+  have hkd : denote (keyT.getD (.atom sStr)) = denote (keyB.getD (.atom sStr)) := by
+    cases keyT with
+    | none =>
+      cases keyB with
+      | none => rfl
+      | some y => exact absurd hk (by simp [KeyRel])
+    | some x =>
+      cases keyB with
+      | none => exact absurd hk (by simp [KeyRel])
+      | some y => exact hk.1.denote
+  have hwT := (container_typing o a keyT bT hb.wT hkeyT).2
+  have hwB : wfB (containerE (withOp o) a keyB bB) = true := by
+    rcases (container_operator (withOp o) a keyB bB false (Or.inl hb.wB) hkeyB).2 with h | ⟨_, h⟩
+    · exact h
+    · cases h
+  have hcT := cont_shape o a keyT bT hneT
+  have hcB := cont_shape (withOp o) a keyB bB hneB
+  obtain ⟨hn1, hn2, hn3, hn4, hn5, hn6⟩ := names_not_ou o
+  obtain ⟨e1, e2, e3⟩ := names_withOp o
+  rw [e1, e2, e3] at hcB
+  have hfacts : dd (alts (containerE o a keyT bT)) = dd (alts (containerE (withOp o) a keyB bB)) ∧
+      (hasNone (containerE o a keyT bT) || (fT || rn)) = (hasNone (containerE (withOp o) a keyB bB) || (fB || rn)) ∧
+      isNoneE (containerE o a keyT bT) = isNoneE (containerE (withOp o) a keyB bB) ∧
+      isAnyE (containerE o a keyT bT) = isAnyE (containerE (withOp o) a keyB bB) ∧
+      spineOK (containerE o a keyT bT) = true := by
+    rw [hcT, hcB]
+    by_cases hL : a.isList = true
+    · have hc := hb.hC (by simp [isCont, hL])
+      have hden : denote bT = denote bB := denote_congr hb.hA hc.1
+      have hr := rel_app (listName o) [bT] [bB] hn1 hn2 (by rw [denoteL_one, denoteL_one, hden])
+      simp only [hL, if_true]
+      refine ⟨hr.hA, by rw [hr.hN, hc.2], hr.hNone, hr.hAny, by simp [spineOK, hn2]⟩
+    · by_cases hS : a.isSet = true
+      · have hc := hb.hC (by simp [isCont, hS])
+        have hden : denote bT = denote bB := denote_congr hb.hA hc.1
+        have hr := rel_app (setName o) [bT] [bB] hn3 hn4 (by rw [denoteL_one, denoteL_one, hden])
+        simp only [hL, hS, if_true, if_false, Bool.false_eq_true]
+        refine ⟨hr.hA, by rw [hr.hN, hc.2], hr.hNone, hr.hAny, by simp [spineOK, hn4]⟩
+      · by_cases hD : a.isDict = true
+        · have hc := hb.hC (by simp [isCont, hD])
+          have hden : denote bT = denote bB := denote_congr hb.hA hc.1
+          have hr := rel_app (dictName o) [keyT.getD (.atom sStr), bT] [keyB.getD (.atom sStr), bB] hn5 hn6
+            (by rw [denoteL_two, denoteL_two, hden, hkd])
+          simp only [hL, hS, hD, if_true, if_false, Bool.false_eq_true]
+          refine ⟨hr.hA, by rw [hr.hN, hc.2], hr.hNone, hr.hAny, by simp [spineOK, hn6]⟩
+        · simp only [hL, hS, hD, if_false, Bool.false_eq_true]
+          refine ⟨hb.hA, ?_, hb.hNone, hb.hAny, hb.sT⟩
+          have hF := hb.hF
+          clear hcT hcB hwT hwB
+          revert hF
+          generalize hasNone bT = x
+          generalize hasNone bB = y
+          cases x <;> cases y <;> cases fT <;> cases fB <;> cases rn <;> simp
+  obtain ⟨f1, f2, f3, f4, f5⟩ := hfacts
+  obtain ⟨r1, r2⟩ := fin_rel _ _ (fT || rn) (fB || rn) f1 f2 f3 f4 hwT f5 hwB
+  exact ⟨r1, (finish_typing _ _ hwT).2, r2, (finish_operator _ _ (Or.inl hwB)).2⟩
+
+theorem baseRel_same (a : Attrs) (e : TExpr) (f : Bool) (wT : wfU e = true) (sT : spineOK e = true) :
+    BaseRel a e e f f :=
+  ⟨rfl, rfl, rfl, rfl, fun _ => ⟨rfl, rfl⟩, wT, sT, wfB_of_wfU e wT⟩
+
+theorem baseRel_single (a : Attrs) (t b : TExpr) (f : Bool) (h : RelW t b) : BaseRel a t b f f :=
+  ⟨h.1.hA, by rw [h.1.hN], h.1.hNone, h.1.hAny, fun _ => ⟨h.1.hN, rfl⟩, h.2.1, h.2.2.1, h.2.2.2⟩
+
+/-! ### the union node -/
+
+theorem altsL_flatMap_borArgs (ds : List TExpr) :
+    altsL (ds.flatMap borArgs) = altsL ds ∧ hasNoneL (ds.flatMap borArgs) = hasNoneL ds := by
+  induction ds with
+  | nil => exact ⟨rfl, rfl⟩
+  | cons d r ih =>
+    simp only [List.flatMap_cons, altsL_append, hasNoneL_append, altsL, hasNoneL, ih.1, ih.2, alts_borArgs]
+    refine ⟨trivial, ?_⟩
+    congr 1
+    cases d with
+    | atom s => simp [borArgs, hasNoneL]
+    | app h args => simp [borArgs, hasNoneL]
+    | bor args => simp [borArgs, hasNone]
+
+/-- `data_types[0] if len(data_types) == 1 else "Union[…]"` -/
+def pickU (ds : List TExpr) : TExpr := match ds with
+  | [d] => d
+  | ds => .app sUnion ds
+/-- `data_types[0] if len(data_types) == 1 else " | ".join(data_types)` -/
+def pickB (ds : List TExpr) : TExpr := match ds with
+  | [d] => d
+  | ds => borFlat ds
+
+theorem mkU_sem (ds : List TExpr) (hne : ds ≠ []) :
+    alts (pickU ds) = altsL ds ∧ hasNone (pickU ds) = hasNoneL ds := by
+  match ds, hne with
+  | [d], _ => simp [pickU, altsL, hasNoneL]
+  | d1 :: d2 :: r, _ =>
+    have : sUnion ≠ sOptional := by decide
+    simp [pickU, alts, hasNone, this]
+
+theorem mkB_sem (ds : List TExpr) (hne : ds ≠ []) (hw : ∀ d ∈ ds, wfB d = true) :
+    alts (pickB ds) = altsL ds ∧ hasNone (pickB ds) = hasNoneL ds := by
+  match ds, hne, hw with
+  | [d], _, _ => simp [pickB, altsL, hasNoneL]
+  | d1 :: d2 :: r, _, hw =>
+    simp only [pickB]
+    unfold borFlat
+    have hlen : 2 ≤ ((d1 :: d2 :: r).flatMap borArgs).length :=
+      Nat.le_trans (by simp) (length_flatMap_ge borArgs _ (fun d hd => borArgs_ne_nil d (hw d hd)))
+    rw [mkBorE'_two _ hlen]
+    obtain ⟨h1, h2⟩ := altsL_flatMap_borArgs (d1 :: d2 :: r)
+    exact ⟨by simp only [alts]; exact h1, by simp only [hasNone]; exact h2⟩
+
+theorem okD_not_none {d : TExpr} (h : okD d) : isNoneE d = false := by
+  cases d with
+  | atom s => simpa [noTop, isNoneE] using h.2
+  | app hd args => rfl
+  | bor args => rfl
+
+/-- `None` removal in the `|` spelling changes the text exactly when there was a `None` to remove -/
+theorem g4B (h : TExpr) (hw : wfB h = true) (hn : isNoneE h = false) :
+    (hasNone (rmB h) || (print (rmB h) != print h)) = hasNone h := by
+  cases h with
+  | atom s => simp [rmB]
+  | app hd args => simp [rmB]
+  | bor args =>
+    obtain ⟨hlen, _, _, _⟩ := wfB_bor_parts hw
+    by_cases hall : ∀ a ∈ args, isNoneE a = false
+    · have : args.filter (fun e => !isNoneE e) = args := by
+        apply List.filter_eq_self.mpr
+        intro a ha; simp [hall a ha]
+      simp only [rmB, this]
+      match args, hlen with
+      | a :: b :: r, _ => simp [mkBorE]
+    · have hex : ∃ a ∈ args, isNoneE a = true := by
+        apply Classical.byContradiction
+        intro hc
+        apply hall
+        intro a ha
+        cases hq : isNoneE a with
+        | false => rfl
+        | true => exact absurd ⟨a, ha, hq⟩ hc
+      obtain ⟨a, ha, hq⟩ := hex
+      have hN : hasNone (.bor args) = true := by
+        simp only [hasNone]; exact hasNoneL_mem ha (hasNone_isNoneE a hq)
+      rw [hN]
+      have hok := okD_rmB _ hw hn
+      have hne : rmB (.bor args) ≠ .bor args := by
+        intro he
+        have := hok.2
+        rw [he] at this
+        simp only [noTop, List.all_eq_true, Bool.not_eq_true'] at this
+        rw [this a ha] at hq; cases hq
+      have : print (rmB (.bor args)) ≠ print (.bor args) := fun hp => hne (print_inj_wfB _ hok.1 _ hw hp)
+      simp [this]
+
+theorem borFlat_any (ds : List TExpr) (hd : ∀ d ∈ ds, okD d) (h2 : 2 ≤ ds.length) : isAnyE (borFlat ds) = false := by
+  have hok := wfB_borFlat ds hd h2
+  have hlen : 2 ≤ (ds.flatMap borArgs).length :=
+    Nat.le_trans h2 (length_flatMap_ge borArgs ds (fun d hdm => borArgs_ne_nil d (hd d hdm).1))
+  have he : borFlat ds = .bor (ds.flatMap borArgs) := by unfold borFlat; exact mkBorE'_two _ hlen
+  rw [he] at hok ⊢
+  exact isAnyE_bor _ hok.1
+
+/-- the union branch of `type_hint`, both spellings, on related members inside the region -/
+theorem union_base (a : Attrs) (Ts Bs : List TExpr) (hrel : All2 Ts Bs) (hreg : membersRegion a Ts Bs = true)
+    (hsome : ∃ k ∈ Ts, isNoneE k = false) :
+    BaseRel a (pickU (unionLoopE false Ts [] a.isOptional).1) (pickB (unionLoopE true Bs [] a.isOptional).1)
+      (unionLoopE false Ts [] a.isOptional).2 (unionLoopE true Bs [] a.isOptional).2 := by
+  simp only [membersRegion, Bool.and_eq_true, List.all_eq_true, bne_iff_ne, ne_eq, Bool.or_eq_true,
+    Bool.not_eq_true', List.any_eq_true] at hreg
+  obtain ⟨⟨hanyT, hanyB⟩, hcont⟩ := hreg
+  have hTs : ∀ t ∈ Ts, wfU t = true ∧ spineOK t = true ∧ wfB t = true := by
+    intro t ht
+    obtain ⟨b, _, hr⟩ := forall2_left hrel t ht
+    exact ⟨hr.2.1, hr.2.2.1, wfB_of_wfU t hr.2.1⟩
+  have hBs : ∀ b ∈ Bs, wfB b = true := by
+    intro b hb
+    obtain ⟨t, _, hr⟩ := forall2_right hrel b hb
+    exact hr.2.2.2
+  -- the two loops, semantically
+  obtain ⟨sT1, sT2⟩ := loop_sem false Ts [] a.isOptional (fun h hh => (hTs h hh).2.2) (by intro x hx; cases hx)
+    (fun h hh => by simp only [rmE, Bool.false_eq_true, if_false, rmU_id h (hTs h hh).2.1]; exact (hTs h hh).2.2)
+    (fun h hh _ => by simp only [rmE, Bool.false_eq_true, if_false, rmU_id h (hTs h hh).2.1]; simp)
+  obtain ⟨sB1, sB2⟩ := loop_sem true Bs [] a.isOptional hBs (by intro x hx; cases hx)
+    (fun h hh => by simp only [rmE, if_true]; exact wfB_rmB h (hBs h hh))
+    (fun h hh hn => by simp only [rmE, if_true]; exact g4B h (hBs h hh) hn)
+  simp only [List.nil_append] at sT1 sT2 sB1 sB2
+  obtain ⟨k1, k2⟩ := kids_sem hrel
+  -- members of the collected lists
+  have hmT : ∀ d ∈ (unionLoopE false Ts [] a.isOptional).1, d ∈ Ts ∧ isNoneE d = false := by
+    intro d hd
+    rcases loop_mem false Ts [] a.isOptional d hd with h | ⟨h, hh, hp, he⟩
+    · cases h
+    · simp only [rmE, Bool.false_eq_true, if_false, rmU_id h (hTs h hh).2.1] at he
+      subst he
+      refine ⟨hh, ?_⟩
+      cases hq : isNoneE d with
+      | false => rfl
+      | true => exact absurd ((print_none_iff d (hTs d hh).2.2).mpr hq) hp
+  have hmB : ∀ d ∈ (unionLoopE true Bs [] a.isOptional).1, ∃ h ∈ Bs, isNoneE h = false ∧ d = rmB h := by
+    intro d hd
+    rcases loop_mem true Bs [] a.isOptional d hd with h | ⟨h, hh, hp, he⟩
+    · cases h
+    · refine ⟨h, hh, ?_, by simpa [rmE] using he⟩
+      cases hq : isNoneE h with
+      | false => rfl
+      | true => exact absurd ((print_none_iff h (hBs h hh)).mpr hq) hp
+  have hokB : ∀ d ∈ (unionLoopE true Bs [] a.isOptional).1, okD d := by
+    intro d hd
+    obtain ⟨h, hh, hn, rfl⟩ := hmB d hd
+    exact okD_rmB h (hBs h hh) hn
+  -- both collect something
+  obtain ⟨k, hk, hkn⟩ := hsome
+  have hneT : (unionLoopE false Ts [] a.isOptional).1 ≠ [] := by
+    apply loop_ne_nil
+    right
+    exact ⟨k, hk, fun hp => by rw [(print_none_iff k (hTs k hk).2.2).mp hp] at hkn; cases hkn⟩
+  have hneB : (unionLoopE true Bs [] a.isOptional).1 ≠ [] := by
+    apply loop_ne_nil
+    right
+    obtain ⟨b, hb, hr⟩ := forall2_left hrel k hk
+    refine ⟨b, hb, fun hp => ?_⟩
+    have := (print_none_iff b (hBs b hb)).mp hp
+    rw [← hr.1.hNone, hkn] at this; cases this
+  obtain ⟨uA, uN⟩ := mkU_sem _ hneT
+  obtain ⟨bA, bN⟩ := mkB_sem _ hneB (fun d hd => (hokB d hd).1)
+  generalize hrT : unionLoopE false Ts [] a.isOptional = rT at *
+  generalize hrB : unionLoopE true Bs [] a.isOptional = rB at *
+  obtain ⟨accT, fT⟩ := rT
+  obtain ⟨accB, fB⟩ := rB
+  simp only [] at *
+  refine ⟨?_, ?_, ?_, ?_, ?_, ?_, ?_, ?_⟩
+  · rw [uA, bA, sT1, sB1]; exact k1
+  · rw [uN, bN, sT2, sB2, k2]
+  · -- neither is `None`
+    have h1 : isNoneE (pickU accT) = false := by
+      match accT, hneT, hmT with
+      | [d], _, hmT => exact (hmT d (List.mem_cons_self ..)).2
+      | d1 :: d2 :: r, _, _ => rfl
+    have h2 : isNoneE (pickB accB) = false := by
+      match accB, hneB, hokB with
+      | [d], _, hokB => exact okD_not_none (hokB d (List.mem_cons_self ..))
+      | d1 :: d2 :: r, _, hokB => exact okD_not_none (wfB_borFlat _ hokB (by simp))
+    rw [h1, h2]
+  · -- neither is `Any`
+    have h1 : isAnyE (pickU accT) = false := by
+      match accT, hneT, hmT with
+      | [d], _, hmT =>
+        have := hanyT d (hmT d (List.mem_cons_self ..)).1
+        simpa [pickU, isAnyE] using this
+      | d1 :: d2 :: r, _, _ => exact isAnyE_app _ _
+    have h2 : isAnyE (pickB accB) = false := by
+      match accB, hneB, hokB, hmB with
+      | [d], _, _, hmB =>
+        obtain ⟨h, hh, _, rfl⟩ := hmB d (List.mem_cons_self ..)
+        have := hanyB h hh
+        simpa [pickB, isAnyE] using this
+      | d1 :: d2 :: r, _, hokB, _ => exact borFlat_any _ hokB (by simp)
+    rw [h1, h2]
+  · -- the node is itself the container: no member carries a `None`, so the flags agree
+    intro hc
+    have hcm : ∀ x ∈ Ts, isNoneE x = true ∨ hasNone x = false := by
+      rcases hcont with h | h
+      · rw [hc] at h; cases h
+      · exact h.1
+    have hnT : hasNoneL accT = false := by
+      apply hasNoneL_false
+      intro d hd
+      obtain ⟨hdm, hdn⟩ := hmT d hd
+      rcases hcm d hdm with h | h
+      · rw [hdn] at h; cases h
+      · exact h
+    have hnB : hasNoneL accB = false := by
+      apply hasNoneL_false
+      intro d hd
+      obtain ⟨h, hh, hn, rfl⟩ := hmB d hd
+      obtain ⟨t, ht, hr⟩ := forall2_right hrel h hh
+      have htn : isNoneE t = false := by rw [hr.1.hNone]; exact hn
+      have hth : hasNone t = false := by
+        rcases hcm t ht with h' | h'
+        · rw [htn] at h'; cases h'
+        · exact h'
+      have hhh : hasNone h = false := by rw [← hr.1.hN]; exact hth
+      have := g4B h (hBs h hh) hn
+      rw [hhh] at this
+      cases hq : hasNone (rmB h) with
+      | false => rfl
+      | true => rw [hq] at this; simp at this
+    rw [uN, bN, hnT, hnB]
+    refine ⟨rfl, ?_⟩
+    rw [hnT] at sT2
+    rw [hnB] at sB2
+    simp only [Bool.false_or] at sT2 sB2
+    rw [sT2, sB2, k2]
+  · -- well-formed, `Union[…]` spelling
+    match accT, hneT, hmT with
+    | [d], _, hmT => exact (hTs d (hmT d (List.mem_cons_self ..)).1).1
+    | d1 :: d2 :: r, _, hmT =>
+      simp only [pickU, wfU, Bool.and_eq_true]
+      exact ⟨⟨by decide, by simp⟩, wfUL_of_mem (fun e he => (hTs e (hmT e he).1).1)⟩
+  · match accT, hneT, hmT with
+    | [d], _, hmT => exact (hTs d (hmT d (List.mem_cons_self ..)).1).2.1
+    | d1 :: d2 :: r, _, hmT =>
+      simp only [pickU, spineOK, if_true, Bool.and_eq_true, decide_eq_true_eq]
+      exact ⟨by simp, spineOKL_of_mem (fun e he => ⟨(hmT e he).2, (hTs e (hmT e he).1).2.1⟩)⟩
+  · match accB, hneB, hokB with
+    | [d], _, hokB => exact (hokB d (List.mem_cons_self ..)).1
+    | d1 :: d2 :: r, _, hokB => exact (wfB_borFlat _ hokB (by simp)).1
+
 end Dcg.Proofs.SpellOp
